@@ -39,10 +39,13 @@ type wmCase struct {
 }
 
 func genWMCase(t *rapid.T) wmCase {
-	c := wmCase{Start: rapid.SampledFrom([]uint64{0, 0, 1, 5, 1000, 1 << 40}).Draw(t, "start")}
+	c := wmCase{Start: rapid.SampledFrom([]uint64{0, 0, 1, 5, 99, 100, 1000, 1<<32 - 2, 1 << 40, 1<<63 - 3, 1<<64 - 5000}).Draw(t, "start")}
 	n := rapid.IntRange(1, 60).Draw(t, "nops")
+	if rapid.IntRange(0, 24).Draw(t, "long") == 0 {
+		n = rapid.IntRange(200, 700).Draw(t, "nopsLong") // hundreds of outstanding indices and waiters
+	}
 	for i := 0; i < n; i++ {
-		o := wmOp{Op: rapid.SampledFrom([]string{"begin", "begin", "begin", "done", "done", "done", "udone", "wait", "wait", "cancel", "burst"}).Draw(t, "op")}
+		o := wmOp{Op: rapid.SampledFrom([]string{"begin", "begin", "begin", "done", "done", "done", "udone", "wait", "wait", "cancel", "burst", "pile"}).Draw(t, "op")}
 		switch o.Op {
 		case "begin":
 			o.Inc = rapid.SampledFrom([]int{0, 0, 1, 1, 1, 2, 3, 10}).Draw(t, "inc")
@@ -53,6 +56,15 @@ func genWMCase(t *rapid.T) wmCase {
 		case "wait":
 			o.Delta = rapid.IntRange(-4, 4).Draw(t, "delta")
 			o.Ctx = rapid.SampledFrom([]string{"bg", "bg", "cancelled", "later"}).Draw(t, "ctx")
+		case "pile":
+			// many holders of ONE index at once (many transactions sharing a read timestamp)
+			if rapid.IntRange(0, 3).Draw(t, "pileRare") != 0 {
+				o.Op = "begin"
+				o.Inc = 0
+			} else {
+				o.N = rapid.SampledFrom([]int{30, 127, 128, 129, 200, 300}).Draw(t, "pileN")
+				o.Inc = rapid.SampledFrom([]int{0, 1}).Draw(t, "inc")
+			}
 		case "burst":
 			if rapid.IntRange(0, 5).Draw(t, "burstRare") != 0 {
 				o.Op = "begin"
@@ -264,6 +276,21 @@ func runWM(c wmCase) (msg string, nontrivial bool, classes []string) {
 			w.Begin(next)
 			cnt[next]++
 			seen[next] = true
+		case "pile":
+			if begunAny {
+				next += uint64(o.Inc)
+			}
+			begunAny = true
+			if w.DoneUntil() == next && cnt[next] <= 0 {
+				stoodAt[next] = true
+			}
+			for k := 0; k < o.N; k++ {
+				w.Begin(next)
+			}
+			cnt[next] += o.N
+			seen[next] = true
+			repeated = true
+			classes = appendOnce(classes, "pile_of_holders_of_one_index")
 		case "done":
 			out := outstanding()
 			if len(out) == 0 {
